@@ -14,7 +14,7 @@ CONSTANTS
   MaxToc = 0
   MaxBlocks = 1
   ProposalKinds <- MCKindsQuick
-  MaxDeliver = 4
+  MaxDeliver = 3
   MaxQueue = 1
   MaxTimeouts = 1
   MaxTicket = 1
